@@ -47,7 +47,7 @@ Proof. exact run_create_fresh. Qed.
 
 (** The ghost history behind it: the issued handles of a storage are pairwise distinct, the removed
     ones are stored nowhere, and every issued handle is either removed or stored. *)
-Theorem C08_ghost_history_exists : forall cfg s, wrapping cfg = false -> sreach true cfg s ->
+Theorem C08_ghost_history_exists : forall cfg s, wrapping cfg = false -> sreach true true cfg s ->
   Inv s /\ exists iss dead, Hist2 s iss dead.
-Proof. exact (sreach_hist2 true). Qed.
+Proof. exact (sreach_hist2 true true). Qed.
 Check (h2_nodup : forall s iss dead, Hist2 s iss dead -> NoDup iss).
